@@ -2,10 +2,11 @@
 
 // Agent-area harness (C08): the REAL agent (agent.New(...).Run) over real data stores with scripted
 // in-process executors. At every quiescent point of the run it records
-//   live  : what client.GetLatestStatus reports (status socket of the running agent),
-//   dead  : what the same client path reports once the socket is gone, from what is persisted NOW:
-//           HistoryStore.ReadStatusToday + CorrectRunningStatus (= GetLatestStatus without a socket),
-//   truth : which steps the scripted executors have started / ended and how.
+//
+//	live  : what client.GetLatestStatus reports (status socket of the running agent),
+//	dead  : what the same client path reports once the socket is gone, from what is persisted NOW:
+//	        HistoryStore.ReadStatusToday + CorrectRunningStatus (= GetLatestStatus without a socket),
+//	truth : which steps the scripted executors have started / ended and how.
 package main
 
 import (
@@ -136,12 +137,12 @@ func init() {
 }
 
 type nodeCase struct {
-	Deps     []int `json:"deps"`
-	ContFail bool  `json:"cf"`
-	ContSkip bool  `json:"cs"`
-	Limit    int   `json:"limit"`
-	Pre      int   `json:"pre"`
-	Fails    int   `json:"fails"`
+	Deps     []int  `json:"deps"`
+	ContFail bool   `json:"cf"`
+	ContSkip bool   `json:"cs"`
+	Limit    int    `json:"limit"`
+	Pre      int    `json:"pre"`
+	Fails    int    `json:"fails"`
 	Obeys    *bool  `json:"obeys,omitempty"`
 	Sig      string `json:"sig,omitempty"` // signalOnStop
 }
@@ -172,9 +173,9 @@ type stopReport struct {
 
 type respW struct{ code int }
 
-func (r *respW) Header() http.Header       { return http.Header{} }
+func (r *respW) Header() http.Header         { return http.Header{} }
 func (r *respW) Write(b []byte) (int, error) { return len(b), nil }
-func (r *respW) WriteHeader(c int)          { r.code = c }
+func (r *respW) WriteHeader(c int)           { r.code = c }
 
 type view struct {
 	Overall string   `json:"ov"`
@@ -186,22 +187,22 @@ type view struct {
 }
 
 type point struct {
-	Live   view  `json:"live"`
-	Dead   view  `json:"dead"`
-	Flight []int `json:"fl"`
+	Live   view           `json:"live"`
+	Dead   view           `json:"dead"`
+	Flight []int          `json:"fl"`
 	Ended  map[string]int `json:"ended"` // node -> 1 ok / 2 fail (last finished attempt)
 	Starts map[string]int `json:"starts"`
 }
 
 type result struct {
-	ID       string   `json:"id"`
-	Ops      []string `json:"ops"`
-	Points   []point  `json:"points"`
-	Final    *point   `json:"final"`
-	RunErr   bool     `json:"runErr"`
-	Hang     bool     `json:"hang"`
-	Panic    string   `json:"panic,omitempty"`
-	Stop     *stopReport `json:"stop,omitempty"`
+	ID     string      `json:"id"`
+	Ops    []string    `json:"ops"`
+	Points []point     `json:"points"`
+	Final  *point      `json:"final"`
+	RunErr bool        `json:"runErr"`
+	Hang   bool        `json:"hang"`
+	Panic  string      `json:"panic,omitempty"`
+	Stop   *stopReport `json:"stop,omitempty"`
 }
 
 func toView(st *model.Status, err error, n int) view {
@@ -491,6 +492,9 @@ type rcase struct {
 	StopVia   string   `json:"stopVia"` // api | os
 	CleanupMs int      `json:"cleanupMs"`
 	DelayMs   int      `json:"delayMs"` // stop that long after the start
+	// the signalOnStop of step 0 goes through the LOADER first: a one-step YAML definition with this spelling is
+	// loaded with dag.LoadYAML; rejected => nothing runs (result.rejected); accepted => the step gets what the loader stored
+	YamlSig string `json:"yamlSig,omitempty"`
 }
 
 type rresult struct {
@@ -501,6 +505,8 @@ type rresult struct {
 	Left     int      `json:"left"` // step processes (carrying the case token) still alive 300 ms after the run ended
 	Handlers []string `json:"handlers"`
 	Panic    string   `json:"panic,omitempty"`
+	Rejected bool     `json:"rejected,omitempty"`
+	Stored   string   `json:"stored,omitempty"` // signalOnStop as the loader stored it
 }
 
 func countToken(tok string) int {
@@ -555,6 +561,20 @@ func runReal(c rcase) (res rresult) {
 		SMTP: &dag.SMTPConfig{}, MailOn: &dag.MailOn{}, ErrorMail: &dag.MailConfig{}, InfoMail: &dag.MailConfig{}}
 	os.WriteFile(d.Location, []byte("steps: []\n"), 0o644)
 	marks := filepath.Join(root, "handlers.txt")
+	if c.YamlSig != "" {
+		y := "steps:\n  - name: s0\n    command: \"true\"\n    signalOnStop: \"" + c.YamlSig + "\"\n"
+		ld, err := dag.LoadYAML([]byte(y))
+		if err != nil || ld == nil || len(ld.Steps) != 1 {
+			res.Rejected = true
+			res.EndedMs = 0
+			return
+		}
+		res.Stored = ld.Steps[0].SignalOnStop
+		if len(c.Sigs) == 0 {
+			c.Sigs = []string{""}
+		}
+		c.Sigs[0] = ld.Steps[0].SignalOnStop
+	}
 	for i, cmd := range c.Cmds {
 		// the token rides in the command line of every process of the step (sh -c '<cmd>' <token>)
 		st := dag.Step{Name: fmt.Sprintf("s%d", i), Command: "sh", Args: []string{"-c", cmd, tok}}
